@@ -241,3 +241,5 @@ _R16 = {
 }
 for _k, _v in _R16.items():
     TEXTS[_k]["text"] += _v
+
+TEXTS["C05"]["text"] += " Also (R05.i): normalisation assigns `source` and `chars` together."
